@@ -132,3 +132,47 @@ Example ex_fs_empty_partition :
        [LPath [NStr "ds"%string; NPart 0]; LPath [NStr "ds"%string; NPart 1]]
   = [VFile [(0, 0)]; VNone].
 Proof. vm_compute. reflexivity. Qed.
+
+(* ---- round 4: results do not depend on what a result buffer held, nor - for the sequential
+   reductions of the repository - on a chunking (Model/SchedBuffers.v) ---- *)
+From SP Require Import Model.SchedBuffers Proofs.SchedBuffersProofs.
+
+(* <kind>s_intersect_bounds clear the result before any early return: whatever the block
+   handed to them held (zeros, or what an earlier call / another thread left in a recycled
+   block), the answer is the same *)
+Theorem C18_bounds_kernel_history_independent :
+  forall (V : Type) (clear : V) degenerate stores g1 g2,
+  List.length g1 = List.length g2 ->
+  bounds_kernel clear degenerate stores g1 = bounds_kernel clear degenerate stores g2.
+Proof. exact bounds_kernel_ignores_buffer. Qed.
+Print Assumptions C18_bounds_kernel_history_independent.
+
+(* length / area: np.full(n, nan) + the map kernel that skips missing elements *)
+Theorem C18_measure_wrapper_history_independent :
+  forall (V : Type) (nan : V) missing fn g1 g2,
+  List.length g1 = List.length g2 ->
+  measure_wrapper nan missing fn g1 = measure_wrapper nan missing fn g2.
+Proof. exact measure_wrapper_ignores_buffer. Qed.
+Print Assumptions C18_measure_wrapper_history_independent.
+
+(* why the run looks for these classes: the early return placed before the clearing, and
+   np.empty under the map kernel, make the answer a function of the buffer *)
+Theorem C18_late_clear_refuted :
+  exists (stores : list (nat * bool)) g1 g2, List.length g1 = List.length g2 /\
+    bounds_kernel_late_clear false true stores g1 <> bounds_kernel_late_clear false true stores g2.
+Proof. exact late_clear_depends_on_buffer. Qed.
+Print Assumptions C18_late_clear_refuted.
+
+Theorem C18_empty_measure_refuted :
+  exists (missing : list bool) (fn : nat -> nat) g1 g2, List.length g1 = List.length g2 /\
+    measure_wrapper_empty missing fn g1 <> measure_wrapper_empty missing fn g2.
+Proof. exact empty_measure_depends_on_buffer. Qed.
+Print Assumptions C18_empty_measure_refuted.
+
+(* a binary64 sum split into per-thread chunks is not the sequential sum: the same terms in
+   the same order, chunked in two ways, give two values (0.1 + 0.2 + 0.3) *)
+Theorem C18_reduction_chunking_refuted :
+  exists chunks1 chunks2 : list (list PrimFloat.float),
+    List.concat chunks1 = List.concat chunks2 /\ chunked_sum chunks1 <> chunked_sum chunks2.
+Proof. exact chunking_matters. Qed.
+Print Assumptions C18_reduction_chunking_refuted.
